@@ -19,7 +19,7 @@ EXPLANATION = (
     "as carried over (alarm cleared by the loss path), so what was requested on the new connection before its CONNACK is "
     "neither failed nor re-sent; Y-CARRY - that test is 'alarm is None', so the loss path must cancel and reset the alarm "
     "of every entry of each such registry on every path (no early exit from the loop, no skipped entry). NOT decided: the "
-    "release of held-back messages as the window allows. "
+    "release of held-back messages as the window allows. Y-SAME - the resume branch encodes no carried-over request again: what is re-sent is the packet encoded when publish() accepted the message, not the payload object as the caller has left it since. "
     " Y-MARK - nothing but the loss path resets the alarm of an entry that stays registered (alarm is None is the carried-over mark); the refill's first transmission of a held-back request at the CONNACK is neither a failure nor a repeat.")
 ASSUMPTIONS = []
 
@@ -91,6 +91,14 @@ def check(ctx):
                         (it[1][0] == "builtin" and it[1][1] in ("list", "tuple", "iter") and it[2] and _plain(it[2][0])))))
                     ctx.ob("Y-ORDER", "%s resume iterates %s in its original (insertion) order" % (cq, reg), plain, where=where(lp), function=lp.func,
                            construct="%s/resume-order/%s" % (lp.func, reg), msg="resume loop iterates over %s" % show(it))
+            # "with its original payload": what is written again is the packet encoded when publish() accepted the message; encoding the
+            # request again from its fields reads the payload object the caller handed in (a bytearray is kept by reference), as it is now
+            renc = [e for e in tr.events if e.kind == "ENCODE" and isinstance(e.a["obj"], tuple) and e.a["obj"][0] in ("elem", "popped")]
+            ctx.ob("Y-SAME", "%s resume writes the packets as they were encoded at publish()" % cq, not renc,
+                   where=where(renc[0]) if renc else cls.module.path, function=renc[0].func if renc else "",
+                   construct="%s/resume-re-encode" % (renc[0].func if renc else cls.qual), nontrivial=False,
+                   msg="a carried-over request is encoded again from its fields on the resume branch: a payload handed in as a bytearray is read "
+                       "as the caller has left it since, not as it was published", trigger=tr.label())
             fails = [e for e in tr.events if e.kind == "FIRE" and e.a["how"] == "errback" and isinstance(e.a["dfr"], tuple)
                      and e.a["dfr"][0] == "attr" and isinstance(e.a["dfr"][1], tuple) and e.a["dfr"][1][0] in ("elem", "popped")]
             ctx.ob("Y-RESUME", "%s nothing is failed when a session is resumed" % cq, not fails, where=where(fails[0]) if fails else cls.module.path,
